@@ -123,7 +123,7 @@ class C01(Check):
             progs.append([("file", b"big%d" % m, Opts(method=m)), ("write", bytes(r.randrange(256) for _ in range(300000 if m != 12 else 1100000)))])
         # more entries than the 16-bit count of the end record can hold (ZIP64 end record by count)
         for cnt in ((65537,) if self.tier == "quick" else (65534, 65535, 65536, 65537, 70000)):
-            progs.append([("file", b"e%d" % i, Opts()) for i in range(cnt)])
+            progs.append([("file", b"e%d" % i, Opts()) for i in range(cnt)] + ([("comment", b"ZIP64 end records and a comment")] if cnt % 2 else []))
         # known finding D22: the last central record ends in bytes that look like a ZIP64 locator (20 bytes in front of
         # the end record): the crate's reader, like CPython's zipfile, takes them for one and cannot open the archive
         progs.append([("file", b"x" + b"PK\x06\x07" + b"0123456789abcdef", Opts()), ("write", b"data")])
